@@ -13,16 +13,55 @@ package utils
 // clauses of functions that create their JobsOrderByQueues themselves (no such object in the pre-state).
 //@ declare famJO() *JobsOrderByQueues
 
-// PushJob drives container/heap through scheduler_util.PriorityQueue with comparator closures and
-// builds the queue-node tree recursively: outside the engine's subset. Assumed: it records at most
-// the given job in `pushed` and otherwise writes only the order structure itself (queue nodes,
-// priority queues, their item arrays) - never jobs, queues, options or the session.
+// PushJob (verified; was trusted). The ghost flag pushed(job) stays in the frame: it is the hook the C06 units use
+// ("a job can only get into an order through PushJob"); the real-state counterpart proved here is [queued*].
+// Q = job.Queue, N = jo.queueNodes[Q] (the leaf node of the job's queue).
+//  [nonLeafQueueIgnored]   a job of a queue that has child queues is not queued at all
+//  [queuedInExistingLeaf]  N existed and its queue is not over its depth: the job is an element of N's queue afterwards
+//  [queuedInNewLeaf]       N did not exist and the depth admits a job: N is a new leaf for Queues[Q] holding exactly the job
+//  [depthZeroLeavesNoLeaf] (/repo 728fd2f) N did not exist and the depth admits nothing: no node is registered
+//  [leafMembers]           N's queue only ever gains the given job
+//  [leafOrderKept] / [newLeafOrdered]   (C16) the heap invariants of N's queue survive / hold from the start
+//  [keepsBestOld] / [keepsBestNew]      (C16, /repo 16edb70, jobs queue depth) a job that fell out of N's bounded queue is
+//                          ordered before none of the jobs that stayed
+//  [inv]                   the object invariant is kept
+// Linking a NEW leaf into the tree is done by ensureAncestorChainForPush (TRUSTED, below); an existing leaf is not relinked.
 //@ func (*JobsOrderByQueues).PushJob
-//@   props C06 C16
-//@   trusted
-//@   note container/heap + comparator closures + recursive tree linking are outside the subset; assumed frame: only the order structure (queueNode / PriorityQueue objects, jo.queueNodes, jo.rootNodes) and the ghost flag of this job change
+//@   props C06 C16 C10 C03
 //@   requires jo != nil && job != nil
+//@   requires [sessionKnown] jo.ssn != nil && jo.ssn.ClusterInfo != nil
+//@   requires [queueKnown] job.Queue in jo.ssn.ClusterInfo.Queues && jo.ssn.ClusterInfo.Queues[job.Queue] != nil
+//@   assume mapOK(jo) && parentsOK() && jo.queueNodes != nil
+//@   note assume: object invariant (mapOK, parentsOK: proved at exit of PushJob and PopNextJob); NewJobsOrderByQueues always makes queueNodes
 //@   modifies pushed(job), jo.queueNodes[*], jo.rootNodes, family(jo.rootNodes.queue), family(jo.rootNodes.maxQueueSize), family(jo.queueNodes[job.Queue].queue), family(jo.queueNodes[job.Queue].children), family(jo.queueNodes[job.Queue].needsReorder), family(jo.queueNodes[job.Queue].parent), family(jo.queueNodes[job.Queue].isLeaf), family(jo.rootNodes.queue.items[*])
+//@   ensures [nonLeafQueueIgnored] len(jo.ssn.ClusterInfo.Queues[job.Queue].ChildQueues) != 0 ==> jo.rootNodes == old(jo.rootNodes) && (forall q common_info.QueueID :: (q in jo.queueNodes) == old(q in jo.queueNodes) && jo.queueNodes[q] == old(jo.queueNodes[q]))
+//@   ensures [queuedInExistingLeaf] old(leafQ(jo, job) && job.Queue in jo.queueNodes && (jo.queueNodes[job.Queue].children.maxQueueSize == scheduler_util.QueueCapacityInfinite || len(jo.queueNodes[job.Queue].children.queue.items) + 1 <= jo.queueNodes[job.Queue].children.maxQueueSize)) ==> job.Queue in jo.queueNodes && jo.queueNodes[job.Queue] == old(jo.queueNodes[job.Queue]) && holdsJob(jo.queueNodes[job.Queue].children, job)
+//@   ensures [queuedInNewLeaf] old(leafQ(jo, job) && !(job.Queue in jo.queueNodes)) && (jo.options.MaxJobsQueueDepth == scheduler_util.QueueCapacityInfinite || jo.options.MaxJobsQueueDepth >= 1) ==> job.Queue in jo.queueNodes && fresh(jo.queueNodes[job.Queue]) && jo.queueNodes[job.Queue].isLeaf && jo.queueNodes[job.Queue].queue == jo.ssn.ClusterInfo.Queues[job.Queue] && len(jo.queueNodes[job.Queue].children.queue.items) == 1 && holdsJob(jo.queueNodes[job.Queue].children, job)
+//@   ensures [depthZeroLeavesNoLeaf] old(leafQ(jo, job) && !(job.Queue in jo.queueNodes)) && !(jo.options.MaxJobsQueueDepth == scheduler_util.QueueCapacityInfinite || jo.options.MaxJobsQueueDepth >= 1) ==> !(job.Queue in jo.queueNodes) && jo.rootNodes == old(jo.rootNodes)
+//@   ensures [leafMembers] old(leafQ(jo, job) && job.Queue in jo.queueNodes) ==> (forall i int :: 0 <= i && i < len(old(jo.queueNodes[job.Queue]).children.queue.items) ==> (typeis(old(jo.queueNodes[job.Queue]).children.queue.items[i], "*podgroup_info.PodGroupInfo") && jobOf(old(jo.queueNodes[job.Queue]).children.queue.items[i]) == job) || (exists j int :: 0 <= j && j < old(len(jo.queueNodes[job.Queue].children.queue.items)) && old(jo.queueNodes[job.Queue]).children.queue.items[i] == old(jo.queueNodes[job.Queue].children.queue.items[j])))
+//@   ensures [leafOrderKept] old(leafQ(jo, job) && job.Queue in jo.queueNodes && scheduler_util.pqOrdered(jo.queueNodes[job.Queue].children)) ==> scheduler_util.pqOrdered(old(jo.queueNodes[job.Queue]).children)
+//@   ensures [newLeafOrdered] old(leafQ(jo, job) && !(job.Queue in jo.queueNodes)) && job.Queue in jo.queueNodes && scheduler_util.swo(jo.queueNodes[job.Queue].children.queue.lessFn) ==> scheduler_util.pqOrdered(jo.queueNodes[job.Queue].children)
+//@   ensures [keepsBestOld] old(leafQ(jo, job) && job.Queue in jo.queueNodes && jo.queueNodes[job.Queue].children.queue.lessFn != nil) && scheduler_util.swo(old(jo.queueNodes[job.Queue].children.queue.lessFn)) ==> (forall j int, i int :: 0 <= j && j < old(len(jo.queueNodes[job.Queue].children.queue.items)) && 0 <= i && i < len(old(jo.queueNodes[job.Queue]).children.queue.items) && !scheduler_util.pqHas(old(jo.queueNodes[job.Queue]).children, old(jo.queueNodes[job.Queue].children.queue.items[j]), len(old(jo.queueNodes[job.Queue]).children.queue.items)) ==> !scheduler_util.lessV(old(jo.queueNodes[job.Queue].children.queue.lessFn), old(jo.queueNodes[job.Queue].children.queue.items[j]), old(jo.queueNodes[job.Queue]).children.queue.items[i]))
+//@   ensures [inv] mapOK(jo) && parentsOK()
+//@ end
+// the job's queue is a leaf queue (has no child queues)
+//@ define leafQ(jo *JobsOrderByQueues, job *podgroup_info.PodGroupInfo) bool = len(jo.ssn.ClusterInfo.Queues[job.Queue].ChildQueues) == 0
+
+// ensureAncestorChainForPush: TRUSTED. Links a new node under the node of its parent queue (created on demand, and
+// then linked in turn) or, for a top-level queue, into rootNodes. Assumed: it only ADDS registrations, keeps the
+// object invariant, pushes into rootNodes / into the children queues of OTHER (inner) nodes only - the node's own
+// children queue is left alone - and (C10) when the parent queue is unknown it links nothing: the node stays
+// registered but unreachable from rootNodes, so its jobs are never returned by PopNextJob.
+//@ func (*JobsOrderByQueues).ensureAncestorChainForPush
+//@   props C10 C16
+//@   trusted
+//@   note trusted: recursion over the queue hierarchy; the clause [childQueueUntouched] needs "distinct priority queues own disjoint backing arrays" and "a queue is not its own ancestor", neither of which the engine can carry (see the data invariant above). Its body was checked for panics separately only by reading: every dereference is of jo, childNode, childQueue, jo.ssn.ClusterInfo, a Queues entry (non-nil by snapshot construction) or a registered node (mapOK).
+//@   requires jo != nil && childNode != nil && childQueue != nil && jo.ssn != nil && jo.ssn.ClusterInfo != nil
+//@   modifies jo.queueNodes[*], jo.rootNodes, family(jo.rootNodes.queue), family(jo.rootNodes.maxQueueSize), family(childNode.parent), family(jo.rootNodes.queue.items[*])
+//@   ensures [onlyAdds] forall q common_info.QueueID :: old(q in jo.queueNodes) ==> q in jo.queueNodes && jo.queueNodes[q] == old(jo.queueNodes[q])
+//@   ensures [inv] old(mapOK(jo) && parentsOK() && childNode.children != nil && childNode.queue != nil) ==> mapOK(jo) && parentsOK()
+//@   ensures [childQueueUntouched] childNode.children.maxQueueSize == old(childNode.children.maxQueueSize) && childNode.children.queue.lessFn == old(childNode.children.queue.lessFn) && len(childNode.children.queue.items) == old(len(childNode.children.queue.items)) && samearray(childNode.children.queue.items, old(childNode.children.queue.items)) && (forall i int :: 0 <= i && i < len(childNode.children.queue.items) ==> childNode.children.queue.items[i] == old(childNode.children.queue.items[i]))
+//@   ensures [orphanNotLinked] old(childQueue.ParentQueue != "" && !(childQueue.ParentQueue in jo.ssn.ClusterInfo.Queues)) ==> jo.rootNodes == old(jo.rootNodes) && childNode.parent == old(childNode.parent) && (forall q common_info.QueueID :: (q in jo.queueNodes) == old(q in jo.queueNodes))
 //@ end
 
 // C06: "Reclaim, preempt and consolidation never evict pods of non-preemptible workloads": a job is
@@ -100,34 +139,26 @@ package utils
 //@   inline
 //@ end
 
-// -- data invariant of the order structure ---------------------------------------------------------------------
-// A queueNode is only ever created by createLeafNode / createNonLeafNode, which give it a queue and a priority
-// queue `children`; those two fields and isLeaf are never reassigned. The invariant is therefore stated for EVERY
-// node that has a children queue ("alive"), not only for those currently registered in jo.queueNodes (nodes are
-// unregistered when they run empty, but parent pointers to them may survive):
-//   nodesOK   an alive node has a queue and a comparator; a parent pointer leads to an alive inner node (stated for
-//             every node with a parent pointer: nothing but ensureAncestorChainForPush assigns one)
-//   itemsOK   a leaf's children queue holds non-nil jobs, an inner node's holds alive nodes
-//   sepOK     distinct alive nodes own distinct priority queues with distinct backing arrays
-// and for one JobsOrderByQueues value jo:
-//   rootOK    rootNodes, if present, holds alive nodes and shares nothing with a node's children queue
-//   mapOK     every registered node is alive and registered under the UID of its queue
-// Exported methods ASSUME the invariant at entry and PROVE it at exit (object invariant: the fields involved are
-// unexported and written only by the functions of this file, all of which are under contract below; the
-// constructor NewJobsOrderByQueues creates no node). Helpers require and ensure it.
-//@ define alive(n *queueNode) bool = n != nil && n.children != nil
-//@ define nodesOK() bool = (forall n *queueNode :: n != nil && n.children != nil ==> n.queue != nil && n.children.queue.lessFn != nil) && (forall n *queueNode :: n != nil && n.parent != nil ==> n.parent.children != nil && n.parent.queue != nil && !n.parent.isLeaf)
-//@ define leafItemsOK() bool = forall n *queueNode, i int :: n != nil && n.children != nil && n.isLeaf && 0 <= i && i < len(n.children.queue.items) ==> isJob(n.children.queue.items[i])
-//@ define innerItemsOK() bool = forall n *queueNode, i int :: n != nil && n.children != nil && !n.isLeaf && 0 <= i && i < len(n.children.queue.items) ==> isQN(n.children.queue.items[i]) && qnOf(n.children.queue.items[i]).children != nil
-//@ define itemsOK() bool = leafItemsOK() && innerItemsOK()
-//@ define sepOK() bool = forall n1 *queueNode, n2 *queueNode :: alive(n1) && alive(n2) && n1 != n2 ==> n1.children != n2.children && !samearray(n1.children.queue.items, n2.children.queue.items)
-//@ define rootItemsOK(jo *JobsOrderByQueues) bool = jo.rootNodes != nil ==> jo.rootNodes.queue.lessFn != nil && (forall i int :: 0 <= i && i < len(jo.rootNodes.queue.items) ==> isQN(jo.rootNodes.queue.items[i]) && qnOf(jo.rootNodes.queue.items[i]).children != nil)
-//@ define rootSepOK(jo *JobsOrderByQueues) bool = jo.rootNodes != nil ==> (forall n *queueNode :: alive(n) ==> n.children != jo.rootNodes && !samearray(n.children.queue.items, jo.rootNodes.queue.items))
-//@ define mapOK(jo *JobsOrderByQueues) bool = forall q in jo.queueNodes :: alive(jo.queueNodes[q]) && jo.queueNodes[q].queue.UID == q
-//@ define structOK() bool = nodesOK() && itemsOK() && sepOK()
-//@ define joOK(jo *JobsOrderByQueues) bool = structOK() && rootItemsOK(jo) && rootSepOK(jo) && mapOK(jo)
+// -- data invariant of the order structure (the part the engine can carry) -----------------------------------
+// A queueNode is only created by createLeafNode / createNonLeafNode, which give it a queue and a priority queue
+// `children`; these two fields and isLeaf are never reassigned. Object invariant of a JobsOrderByQueues value jo,
+// ASSUMED at entry of PushJob / PopNextJob / Len and PROVED at their exit (the fields are unexported and written
+// only by functions of this file; NewJobsOrderByQueues creates an empty map):
+//   mapOK(jo)    every registered node exists and has a queue and a children queue
+//   parentsOK()  a parent pointer leads to a node with a queue and a children queue (stated for every node that has
+//                a parent pointer; only ensureAncestorChainForPush assigns one, and nodes are unregistered, never destroyed)
+// What is NOT carried (see the trusted helpers below): the contents of the priority queues of OTHER nodes while one
+// queue is pushed to / popped from. That needs "distinct priority queues own disjoint backing arrays", which the
+// engine cannot keep across an allocation (a zero-length backing array has no cell whose allocation could be named).
+//@ define mapOK(jo *JobsOrderByQueues) bool = forall q in jo.queueNodes :: jo.queueNodes[q] != nil && jo.queueNodes[q].children != nil && jo.queueNodes[q].queue != nil
+//@ define parentsOK() bool = forall n *queueNode :: n != nil && n.parent != nil ==> n.parent.children != nil && n.parent.queue != nil
+// a priority queue of nodes (rootNodes or the children of an inner node) / of jobs (the children of a leaf)
+//@ define nodeQueue(pq *scheduler_util.PriorityQueue) bool = pq != nil && (forall i int :: 0 <= i && i < len(pq.queue.items) ==> isQN(pq.queue.items[i]) && qnOf(pq.queue.items[i]).children != nil && qnOf(pq.queue.items[i]).queue != nil)
+//@ define jobQueue(pq *scheduler_util.PriorityQueue) bool = pq != nil && (forall i int :: 0 <= i && i < len(pq.queue.items) ==> isJob(pq.queue.items[i]))
+// job j is one of the elements of pq
+//@ define holdsJob(pq *scheduler_util.PriorityQueue, j *podgroup_info.PodGroupInfo) bool = exists i int :: 0 <= i && i < len(pq.queue.items) && typeis(pq.queue.items[i], "*podgroup_info.PodGroupInfo") && jobOf(pq.queue.items[i]) == j
 
-// constructors of nodes: a fresh alive node with an empty children queue ordered by the leaf / node comparator
+// constructors of nodes: a fresh node with an empty children queue ordered by the leaf / node comparator
 //@ func (*JobsOrderByQueues).createLeafNode
 //@   props C16 C10
 //@   requires jo != nil
@@ -151,37 +182,6 @@ package utils
 //@   inline
 //@ end
 
-// a priority queue of nodes (rootNodes or the children of an inner node): holds alive nodes only
-//@ define nodeQueue(pq *scheduler_util.PriorityQueue) bool = pq != nil && (forall i int :: 0 <= i && i < len(pq.queue.items) ==> isQN(pq.queue.items[i]) && qnOf(pq.queue.items[i]).children != nil)
-// its backing array is shared with no other node's children queue
-//@ define sepFrom(pq *scheduler_util.PriorityQueue) bool = forall n *queueNode :: alive(n) && n.children != pq ==> !samearray(n.children.queue.items, pq.queue.items)
-// the jobs of every leaf stay where they are (same queue object, same array, same cells)
-//@ define leavesKept() bool = forall n *queueNode, i int :: old(alive(n)) && old(n.isLeaf) && 0 <= i && i < old(len(n.children.queue.items)) ==> n.children.queue.items[i] == old(n.children.queue.items[i])
-
-// flags the node and all its ancestors; writes nothing else. Termination (the parent chain is acyclic because it
-// follows the queue hierarchy) is not claimed.
-//@ func (*JobsOrderByQueues).markAncestorsForReorder
-//@   props C10
-//@   modifies family(node.needsReorder)
-//@ end
-
-// getNextNode: the node at the top of a node queue, after re-sifting it while it is flagged. No claim about which
-// node that is (the node comparators depend on the current best job below each node: no fixed order exists).
-// Partial correctness: termination of the recursion (one flag is cleared per call) is not claimed.
-//@ func (*JobsOrderByQueues).getNextNode
-//@   props C10 C16
-//@   requires structOK() && nodeQueue(pq) && sepFrom(pq)
-//@   modifies pq.queue.items[*], family(qnOf(pq.queue.items[0]).needsReorder)
-//@   ensures [nodes] nodesOK()
-//@   ensures [leafItems] leafItemsOK()
-//@   ensures [innerItems] innerItemsOK()
-//@   ensures [sep] sepOK()
-//@   ensures [nodeQueue] nodeQueue(pq)
-//@   ensures [sepFrom] sepFrom(pq)
-//@   ensures [top] result != nil ==> len(pq.queue.items) > 0 && qnOf(pq.queue.items[0]) == result && result.children != nil && len(result.children.queue.items) > 0
-//@   ensures [foundUnlessPruningBroken] old(len(pq.queue.items) > 0 && (forall i int :: 0 <= i && i < len(pq.queue.items) ==> len(qnOf(pq.queue.items[i]).children.queue.items) > 0)) ==> result != nil
-//@ end
-
 //@ func (*JobsOrderByQueues).ensureRootNodesInitialized
 //@   props C10
 //@   requires jo != nil
@@ -190,30 +190,99 @@ package utils
 //@   ensures [created] old(jo.rootNodes) == nil ==> jo.rootNodes != nil && fresh(jo.rootNodes) && fresh(jo.rootNodes.queue.items) && len(jo.rootNodes.queue.items) == 0 && jo.rootNodes.queue.lessFn != nil && jo.rootNodes.maxQueueSize == scheduler_util.QueueCapacityInfinite
 //@ end
 
-// ---- exec: the job order as used by the Execute loops of preempt / reclaim / consolidation (C05) ----------
-// The order structure is a tree of container/heap priority queues with comparator closures (outside the
-// subset, like PushJob). orderEmpty(jo) is the abstract answer of IsEmpty. Assumed: IsEmpty reads only;
-// PopNextJob writes only the order structure itself (queue nodes, priority queues and their item arrays,
-// jo.queueNodes, jo.rootNodes, jo.poppedJobsByQueue) - never jobs, queues, the session or any other object -
-// and, on a non-empty order, returns a job (the tree keeps no empty node linked: handlePopFromNode prunes
-// them; getNextNode's "should never happen" branch). NB this holds only for orders built with
-// MaxJobsQueueDepth != 0: with depth 0 PushJob links a leaf whose job queue immediately drops the job, the
-// order is "not empty" and PopNextJob returns nil (reproduced on the real code, notes/exec_depth0_demo_test.go.txt);
-// the Execute units that rely on [nonEmptyYieldsJob] therefore carry `requires [queueDepthNotZero]`.
-//@ ghost orderEmpty(jo *JobsOrderByQueues) bool
-//@ func (*JobsOrderByQueues).IsEmpty
-//@   props C05
+// flags the node and all its ancestors; writes nothing else. Termination (the parent chain is acyclic because it
+// follows the queue hierarchy) is not claimed.
+//@ func (*JobsOrderByQueues).markAncestorsForReorder
+//@   props C10
+//@   modifies family(node.needsReorder)
+//@ end
+
+// getNextNode: the node at the top of a node queue, after re-sifting the queue while its top is flagged. No claim
+// about WHICH node that is (the node comparators look at the current best job below each node: no fixed order
+// exists). C10: no panic on a queue of nodes. Partial correctness: termination of the recursion (one flag is
+// cleared per call) is not claimed.
+//@ func (*JobsOrderByQueues).getNextNode
+//@   props C10
+//@   requires nodeQueue(pq)
+//@   modifies pq.queue.items[*], family(qnOf(pq.queue.items[0]).needsReorder)
+//@   ensures [nodeQueue] nodeQueue(pq)
+//@   ensures [top] result != nil ==> len(pq.queue.items) > 0 && qnOf(pq.queue.items[0]) == result && result.children != nil && result.queue != nil && len(result.children.queue.items) > 0
+//@   ensures [foundUnlessAnEmptyNodeIsLinked] old(len(pq.queue.items) > 0 && (forall i int :: 0 <= i && i < len(pq.queue.items) ==> len(qnOf(pq.queue.items[i]).children.queue.items) > 0)) ==> result != nil
+//@ end
+
+// traverseToLeaf: TRUSTED. Walks getNextNode down from a queue of nodes to a leaf. Assumed: it re-sifts only
+// queues of inner nodes / rootNodes and clears needsReorder flags; the leaf it returns is a linked leaf: it has a
+// queue, its children queue holds at least one element, all of them non-nil jobs, and traversal did not touch it.
+// [linkedNodesNonEmpty] (pruning invariant of handlePopFromNode / PushJob): a non-empty queue of nodes yields a leaf.
+//@ func (*JobsOrderByQueues).traverseToLeaf
+//@   props C10 C16 C05
 //@   trusted
-//@   note container/heap priority queue (scheduler_util.PriorityQueue.Empty) is outside the subset; assumed read-only; the ghost orderEmpty names its answer
+//@   note trusted: the recursion over the node tree needs the hereditary data invariant "the children queue of an inner node holds nodes, of a leaf holds non-nil jobs, and distinct priority queues own disjoint backing arrays" (to know that re-sifting one queue leaves the others alone); its preservation across the allocations of PushJob is not expressible (see above). getNextNode, the step function, is verified.
+//@   requires pq != nil
+//@   modifies family(pq.queue.items[*]), family(qnOf(pq.queue.items[0]).needsReorder)
+//@   ensures [leaf] result != nil ==> result.isLeaf && result.queue != nil && result.children != nil && len(result.children.queue.items) > 0 && jobQueue(result.children)
+//@   ensures [leafUntouched] result != nil ==> samearray(result.children.queue.items, old(result.children.queue.items)) && (forall i int :: 0 <= i && i < len(result.children.queue.items) ==> result.children.queue.items[i] == old(result.children.queue.items[i]))
+//@   ensures [linkedNodesNonEmpty] old(len(pq.queue.items)) > 0 ==> result != nil
+//@ end
+
+// handlePopFromNode: unregisters the node if it ran empty (and then its ancestors that ran empty), otherwise flags
+// the ancestors. C10: no panic for a node whose parent chain satisfies parentsOK. Verified for: only registrations
+// are removed (mapOK is kept), rootNodes stays. Not claimed: that the queue element removed from the parent is this
+// node ("assumes the node requested for removal is at the top of its parent's priority queue": holds after
+// traverseToLeaf, needs the chain of tops = an inductive predicate over the parent chain).
+//@ func (*JobsOrderByQueues).handlePopFromNode
+//@   props C10
+//@   requires jo != nil && node != nil && node.children != nil && node.queue != nil && parentsOK()
+//@   requires [rootExists] jo.rootNodes != nil
+//@   modifies jo.queueNodes[*], family(node.needsReorder), family(jo.rootNodes.queue), family(jo.rootNodes.queue.items[*])
+//@   ensures [onlyUnregisters] forall q in jo.queueNodes :: old(q in jo.queueNodes) && jo.queueNodes[q] == old(jo.queueNodes[q])
+//@   ensures [parents] parentsOK()
+//@ end
+
+// ---- exec: the job order as used by the Execute loops of preempt / reclaim / consolidation (C05) ----------
+// orderEmpty(jo): the answer of IsEmpty, now a function of the real state (no root queue, or an empty one).
+//@ define orderEmpty(jo *JobsOrderByQueues) bool = jo.rootNodes == nil || len(jo.rootNodes.queue.items) == 0
+//@ func (*JobsOrderByQueues).IsEmpty
+//@   props C05 C10 C16
+//@   assume jo != nil
+//@   note assume jo != nil: the receiver; a nil *JobsOrderByQueues is the caller's no-panic matter (every caller uses the address of a value built by NewJobsOrderByQueues)
 //@   pure
 //@   ensures result == orderEmpty(jo)
 //@ end
+
+// PopNextJob. Verified against its body, the verified contracts of scheduler_util.PriorityQueue and of
+// handlePopFromNode, and the TRUSTED contract of traverseToLeaf.
+//  [emptyYieldsNil]      nothing comes out of an empty order
+//  [nonEmptyYieldsJob]   (C05, as before) a non-empty order yields a job - rests on traverseToLeaf [linkedNodesNonEmpty]
+//  [pushedNotPopped]     (C03/C06) the job returned was an element of the children queue of a leaf node: it was handed
+//                        to PushJob (only PushJob adds to a leaf's queue) and not popped since
+//  [bestOfLeaf]          (C16) it was the FIRST element of that leaf's queue, and if that queue satisfied the heap
+//                        invariants under a strict-weak-order comparator, none of the leaf's jobs is ordered before it
+//                        by the leaf's comparator (= createLeafNode$1 = the session's JobOrderFn: priority, then FIFO)
+//  [victimRecorded]      a victims queue remembers the popped job under the leaf's queue
+//  [inv]                 the object invariant is kept
 //@ func (*JobsOrderByQueues).PopNextJob
-//@   props C05
-//@   trusted
-//@   note container/heap + comparator closures + recursive tree relinking are outside the subset; assumed frame: only the order structure (queueNode / PriorityQueue objects, jo.queueNodes, jo.rootNodes, jo.poppedJobsByQueue) changes; assumed: a non-empty order yields a job (pruning invariant of the tree)
-//@   modifies orderEmpty(jo), jo.queueNodes[*], jo.rootNodes, jo.poppedJobsByQueue[*], family(jo.rootNodes.queue), family(jo.rootNodes.maxQueueSize), family(jo.queueNodes[""].queue), family(jo.queueNodes[""].children), family(jo.queueNodes[""].needsReorder), family(jo.queueNodes[""].parent), family(jo.queueNodes[""].isLeaf), family(jo.rootNodes.queue.items[*])
+//@   props C05 C16 C10 C03
+//@   assume jo != nil && mapOK(jo) && parentsOK() && (jo.options.VictimQueue ==> jo.poppedJobsByQueue != nil)
+//@   note assume: receiver non-nil (caller's matter) + object invariant (mapOK, parentsOK: proved at exit of PushJob and PopNextJob) + NewJobsOrderByQueues always makes poppedJobsByQueue
+//@   modifies jo.queueNodes[*], jo.poppedJobsByQueue[*], family(jo.rootNodes.queue), family(jo.queueNodes[""].needsReorder), family(jo.rootNodes.queue.items[*])
+//@   ensures [emptyYieldsNil] old(orderEmpty(jo)) ==> result == nil
 //@   ensures [nonEmptyYieldsJob] !old(orderEmpty(jo)) ==> result != nil
+//@   ensures [pushedNotPopped] result != nil ==> (exists n *queueNode :: old(n != nil && n.isLeaf && n.children != nil && holdsJob(n.children, result)))
+//@   ensures [bestOfLeaf] result != nil ==> (exists n *queueNode :: old(n != nil && n.isLeaf && n.children != nil && len(n.children.queue.items) > 0 && isJob(n.children.queue.items[0])) && result == old(jobOf(n.children.queue.items[0])) && (old(scheduler_util.pqOrdered(n.children)) ==> (forall j int :: 0 <= j && j < old(len(n.children.queue.items)) ==> !scheduler_util.lessV(old(n.children.queue.lessFn), old(n.children.queue.items[j]), old(n.children.queue.items[0])))))
+//@   ensures [victimRecorded] result != nil && jo.options.VictimQueue ==> (exists k common_info.QueueID :: len(jo.poppedJobsByQueue[k]) == old(len(jo.poppedJobsByQueue[k])) + 1 && jo.poppedJobsByQueue[k][len(jo.poppedJobsByQueue[k]) - 1] == result)
+//@   ensures [inv] mapOK(jo) && parentsOK()
+//@ end
+
+// Len: the number of queued jobs (sum over the registered leaves). C10 only: no panic under the object invariant, reads only.
+//@ func (*JobsOrderByQueues).Len
+//@   props C10
+//@   assume jo != nil && mapOK(jo)
+//@   note assume: receiver non-nil + object invariant mapOK
+//@   pure
+//@   loop 1
+//@     invariant count >= 0
+//@   ensures [nonNegative] result >= 0
 //@ end
 // ---- end exec ----
 
